@@ -630,7 +630,9 @@ func mutateDoc(r *Rand, d model.Doc) model.Doc {
 				u.Services[i].Match = nil
 			}
 			if u.Authenticator != nil {
-				u.Authenticator.Options = map[string]string{"hash": PwPool[r.Intn(len(PwPool))].Hash}
+				np := PwPool[r.Intn(len(PwPool))]
+				u.Authenticator.Options = map[string]string{"hash": np.Hash}
+				u.Authenticator.Password = np.Pw // the credential changes with the document
 			}
 		}
 	}
